@@ -133,9 +133,9 @@ Lemma native_astimezone_inv x tz r : native_astimezone x tz = Ok r ->
 Proof.
   unfold native_astimezone. destruct (v_tz x) as [t|] eqn:Et; [|discriminate].
   unfold in_tz. destruct (tz_id t =? tz_id tz) eqn:Eid.
-  - intros H. injection H as <-. exists t. cbn. split; [reflexivity|]. split; [reflexivity|]. left. split; [exact Eid|split; reflexivity].
+  - intros H. injection H as <-. exists t. cbn [v_wall v_fold v_tz fst snd negb andb orb bind Bool.eqb]. split; [reflexivity|]. split; [reflexivity|]. left. split; [exact Eid|split; reflexivity].
   - destruct (astz _ _ _ _) as [[W f]|e] eqn:Ea; [|discriminate]. intros H. injection H as <-.
-    exists t. cbn. split; [reflexivity|]. split; [reflexivity|]. right. split; [exact Eid|].
+    exists t. cbn [v_wall v_fold v_tz fst snd negb andb orb bind Bool.eqb]. split; [reflexivity|]. split; [reflexivity|]. right. split; [exact Eid|].
     destruct (astz_ok _ _ _ _ _ _ Ea) as [E _]. unfold instant, native_utcoffset, v_off. rewrite Et. exact E.
 Qed.
 
@@ -153,7 +153,7 @@ Proof.
   - rewrite andb_false_r. split; reflexivity.
   - rewrite andb_true_r. destruct (v_fold r) eqn:Efr.
     + rewrite (create_rendered tz (instant x) (v_wall r) true Hok) by (rewrite <- Hr; reflexivity).
-      split; [|reflexivity]. destruct r as [W f tzr]. cbn in *. subst. reflexivity.
+      split; [|reflexivity]. destruct r as [W f tzr]. cbn [v_wall v_fold v_tz fst snd negb andb orb bind Bool.eqb] in *. subst. reflexivity.
     + split; reflexivity.
 Qed.
 
@@ -178,9 +178,9 @@ Lemma fromtimestamp_instant tz t r : tz_ok tz -> pd_fromtimestamp_us tz t = Ok r
 Proof.
   intros Hok. unfold pd_fromtimestamp_us. destruct (wall_in_range (EPOCH_US + t)); cbn [negb]; [|discriminate].
   destruct (render (tz_zone tz) (EPOCH_US + t)) as [W f] eqn:Er. destruct (wall_in_range W); [|discriminate].
-  rewrite (create_rendered tz _ _ _ Hok Er). intros H. injection H as <-. cbn.
+  rewrite (create_rendered tz _ _ _ Hok Er). intros H. injection H as <-. cbn [v_wall v_fold v_tz fst snd negb andb orb bind Bool.eqb].
   split; [|split; reflexivity]. destruct Hok as [Hwf _]. pose proof (render_inst (tz_zone tz) (EPOCH_US + t) Hwf) as R. rewrite Er in R.
-  unfold instant, native_utcoffset, v_off. cbn. exact R.
+  unfold instant, native_utcoffset, v_off. cbn [v_wall v_fold v_tz fst snd negb andb orb bind Bool.eqb]. exact R.
 Qed.
 
 (* replace(): create() — the native replace (same fields, fold, tzinfo) unless the target wall time is skipped *)
@@ -215,7 +215,7 @@ Lemma eq_hash_native x : native_eq x x = true /\ hash_eq x x = true /\ native_su
 Proof.
   assert (S : same_tzobj x x = true) by (unfold same_tzobj; destruct (v_tz x); [apply Z.eqb_refl|reflexivity]).
   unfold native_eq, native_le, native_ge, native_lt, native_gt, native_ord, native_sub, cmp_key, hash_eq. rewrite S.
-  rewrite !Z.eqb_refl, eqb_reflx. cbn. repeat split; f_equal; lia.
+  rewrite !Z.eqb_refl, eqb_reflx. cbn [v_wall v_fold v_tz fst snd negb andb orb bind Bool.eqb]. repeat split; f_equal; lia.
 Qed.
 
 (* against the native object with an equal but distinct tzinfo object (zoneinfo.ZoneInfo(name)): always the same hash, and equal
@@ -224,12 +224,11 @@ Lemma eq_hash_other_tzinfo W f t t' : tz_id t <> tz_id t' -> tz_zone t' = tz_zon
   let x := mkdtv W f (Some t) in let x' := mkdtv W f (Some t') in
   hash_eq x x' = true /\ native_eq x x' = negb (problem_time x) /\ native_sub x x' = Ok 0 /\ native_lt x x' = Ok false /\ native_le x x' = Ok true.
 Proof.
-  intros Hid Hz x x'.
-  assert (S : same_tzobj x x' = false) by (unfold same_tzobj; cbn; lia).
-  assert (I : instant x' = instant x) by (unfold instant, native_utcoffset, v_off; cbn; rewrite Hz; reflexivity).
-  assert (P : problem_time x' = problem_time x) by (unfold problem_time, v_off; cbn; rewrite Hz; reflexivity).
-  unfold hash_eq, native_hash_key, native_eq, native_sub, native_lt, native_le, native_ord, cmp_key, v_off. rewrite S. cbn [v_tz x x' v_wall fst snd].
-  rewrite Hz, I, P, Z.eqb_refl, orb_diag. cbn. repeat split; f_equal; lia.
+  intros Hid Hz. cbv zeta.
+  assert (S : (tz_id t =? tz_id t') = false) by lia.
+  unfold hash_eq, native_hash_key, native_eq, native_sub, native_lt, native_le, native_ord, cmp_key, same_tzobj, problem_time, instant, native_utcoffset, v_off.
+  cbn [v_wall v_fold v_tz]. rewrite S, Hz. cbn [fst snd Bool.eqb orb negb]. rewrite !Z.eqb_refl, orb_diag. cbn [andb].
+  repeat split; f_equal; lia.
 Qed.
 
 (* Python's contract: equal objects hash equal (tzinfo identity determines the tzinfo) *)
@@ -237,11 +236,11 @@ Definition coherent (x y : dtv) : Prop := forall a b, v_tz x = Some a -> v_tz y 
 Lemma eq_implies_hash_eq x y : coherent x y -> native_eq x y = true -> hash_eq x y = true.
 Proof.
   intros Hco. unfold native_eq, cmp_key, hash_eq, native_hash_key, same_tzobj, problem_time, instant, native_utcoffset, v_off.
-  destruct (v_tz x) as [a|] eqn:Ea, (v_tz y) as [b|] eqn:Eb; cbn.
+  destruct (v_tz x) as [a|] eqn:Ea, (v_tz y) as [b|] eqn:Eb; cbn [v_wall v_fold v_tz fst snd negb andb orb bind Bool.eqb].
   - destruct (tz_id a =? tz_id b) eqn:Eid.
     + assert (a = b) by (apply Hco; auto; lia). subst b. intros H. apply andb_true_iff in H. destruct H as [H _].
       assert (v_wall x = v_wall y) by lia. rewrite H0, Z.eqb_refl. reflexivity.
-    + cbn. intros H. apply andb_true_iff in H. destruct H as [H1 H2].
+    + cbn [v_wall v_fold v_tz fst snd negb andb orb bind Bool.eqb]. intros H. apply andb_true_iff in H. destruct H as [H1 H2].
       apply negb_true_iff, orb_false_iff in H2. destruct H2 as [P1 P2].
       apply negb_false_iff in P1. apply negb_false_iff in P2.
       destruct (v_fold x), (v_fold y); lia.
@@ -265,7 +264,7 @@ Qed.
 Lemma order_same_tzinfo_is_wall_order x y : same_tzobj x y = true ->
   native_lt x y = Ok (v_wall x <? v_wall y) /\ native_eq x y = (v_wall x =? v_wall y).
 Proof.
-  unfold native_lt, native_ord, native_eq, cmp_key. intros S. rewrite S. cbn. rewrite andb_true_r. split; reflexivity.
+  unfold native_lt, native_ord, native_eq, cmp_key. intros S. rewrite S. cbn [v_wall v_fold v_tz fst snd negb andb orb bind Bool.eqb]. rewrite andb_true_r. split; reflexivity.
 Qed.
 
 (* ... which is the order of the instants when both values have the same utcoffset *)
@@ -317,7 +316,7 @@ Proof.
     + apply andb_true_iff in E. destruct E as [E1 E2].
       assert (Aa : aware a = true) by (apply eqb_prop in Haw; congruence).
       destruct (Hs E1 Aa) as [Eo _]. unfold native_sub in Hn. rewrite E1 in Hn. injection Hn as <-.
-      replace (instant a - instant b) with (v_wall a - v_wall b); [destruct (td_of_float_seconds _); reflexivity|].
+      replace (instant a - instant b) with (v_wall a - v_wall b); [cbn [bind]; destruct (td_of_float_seconds _); reflexivity|].
       unfold instant. rewrite Eo. destruct (native_utcoffset b); lia.
     + rewrite Hn. cbn [bind]. destruct (td_of_float_seconds _); reflexivity.
   - rewrite (same_tzobj_sym b a). intros S Ab. assert (Aa : aware a = true) by (apply eqb_prop in Haw; congruence).
@@ -393,7 +392,7 @@ Lemma astimezone_keeps_tzinfo_object x tz r t k : pd_astimezone x tz false = Ok 
 Proof.
   unfold pd_astimezone. destruct (native_astimezone x tz) as [r0|]; [|discriminate].
   destruct (v_fold r0 && _) eqn:E.
-  - unfold pd_create. destruct (create _ _ _ _ _) as [[W' f']|]; [|discriminate]. intros H. injection H as _ <- <-. cbn.
+  - unfold pd_create. destruct (create _ _ _ _ _) as [[W' f']|]; [|discriminate]. intros H. injection H as _ <- <-. cbn [v_wall v_fold v_tz fst snd negb andb orb bind Bool.eqb].
     destruct f'; [left|right; reflexivity]. apply andb_true_iff in E. destruct E as [_ E]. rewrite E. reflexivity.
   - intros H. injection H as _ <- <-. left. rewrite E. reflexivity.
 Qed.
